@@ -267,9 +267,10 @@ fn scn_streamcomp(o: &Opts, tr: &mut Tr, prop: &str) {
     // literal-heavy data with matches, more than one LZ block, lazy parsing, tiny output buffers:
     // calls are suspended inside the LZ loops with a deferred match pending
     let lazies: Vec<(&str, usize, u8, usize)> = if o.thorough {
-        vec![("text", 200_000, 6, 128), ("mixed", 250_000, 9, 500), ("text", 150_000, 4, 64), ("alpha4", 120_000, 7, 1000), ("text", 100_000, 1, 100)]
+        vec![("litmatch", 300_000, 6, 128), ("mixed", 250_000, 9, 500), ("litmatch", 200_000, 4, 64), ("litmatch", 200_000, 9, 1000),
+             ("alpha4", 120_000, 7, 1000), ("text", 100_000, 1, 100), ("litmatch", 150_000, 2, 200)]
     } else {
-        vec![("text", 120_000, 6, 128), ("mixed", 150_000, 9, 500)]
+        vec![("litmatch", 200_000, 6, 128), ("mixed", 150_000, 9, 500), ("litmatch", 140_000, 4, 300)]
     };
     for (li, (kind, size, lvl, ol)) in lazies.iter().enumerate() {
         let data = gen::data(kind, *size, &mut r);
